@@ -182,6 +182,7 @@ def load(src=None, stub_dateutil=True):
                 pass
     if mcal is not None:
         mcal.__dict__["int"] = IntShim
+    sys.modules["pendulum.tz"]._tz_cache = symx.SymDict()
     _loaded = types.SimpleNamespace(pendulum=pendulum, datetime=mdatetime, zoneinfo=mzoneinfo,
                                     calendar=mcal, src=src)
     return _loaded
